@@ -249,7 +249,13 @@ static inline uint32_t hs_hash6432shift(uint64_t key, unsigned int order)
 					return HASHTABLE_SUCCESS;                                                                                                                 \
 				} else {                                                                                                                                          \
 					/* Now we must try to swap some entries */                                                                                                \
+					uint32_t vacated_pos = free_pos;                                                                                                          \
 					free_pos = find_closer_entry_##name(table, free_pos);                                                                                     \
+					if (free_pos == 0xffffffff) {                                                                                                             \
+						/* Giving up. An earlier swap left a stale copy of the moved entry here. */                                                       \
+						table[vacated_pos].key = (type)HASHTABLE_INVALIDENTRY;                                                                            \
+						memset(&table[vacated_pos].value, 0, sizeof(table[vacated_pos].value));                                                           \
+					}                                                                                                                                                                            \
 					free_distance = wrap_pos##name(free_pos - hash_pos);                                                                                      \
 				}                                                                                                                                                 \
 			} while (free_pos != 0xffffffff);                                                                                                                         \
